@@ -24,7 +24,7 @@ import (
 // Built with -race by the driver.
 
 const c12Rule = "rapid draws of N in 2..8 goroutine programs of 5-40 ops over {SchemaForType+Marshal, Schema.Codec construction, Register+RegisterSchema of a goroutine-private type and use of it, " +
-	"decode with a SHARED codec into a private target, encode with a SHARED codec into a private WriteBuf, ReadFile of a whole file, closing banks received over a channel from other goroutines, " +
+	"decode with a SHARED codec into a private target, encode with a SHARED codec into a private WriteBuf, ReadFile of a whole file, writing a whole file with a private Encoder[T], closing banks received over a channel from other goroutines, " +
 	"timestamp parsing with fresh and repeated zone offsets}, drawn runtime.Gosched() points, a start barrier; run under the race detector (-race, halt_on_error); " +
 	"oracle: every op's result equals the result precomputed sequentially for the same op, and the race detector reports nothing; " +
 	"non-trivial = >= 3 goroutines and >= 2 op kinds that touch the same shared structure (registry, bank pool, time-zone cache, one codec); distinct by case JSON hash. " +
@@ -213,6 +213,8 @@ func runC12(c c12Case) (bool, []string, error) {
 				touch("pool", op.Kind)
 			case "encode":
 				touch("codec", op.Kind)
+			case "encodefile":
+				touch("registry", op.Kind)
 			case "readfile":
 				touch("pool", op.Kind)
 				touch("registry", op.Kind)
@@ -344,6 +346,41 @@ func c12Run(g int, op c12Op, banks chan *avro.ResourceBank) error {
 				return nil
 			}
 		}
+	case "encodefile":
+		// a goroutine-private Encoder[T] (its own buffer and file writer), sharing only the registries
+		e := cat.Get(f.name)
+		var buf bytes.Buffer
+		enc, err := e.NewEncoder(&buf, avro.Compression([]string{"null", "deflate", "snappy"}[op.Arg%3]), 40)
+		if err != nil {
+			return err
+		}
+		for _, v := range f.values {
+			if err := enc.Encode(v.UnsafePointer()); err != nil {
+				return err
+			}
+		}
+		if err := enc.Flush(); err != nil {
+			return err
+		}
+		schema, _, blocks, err := ref.ReadRecords(buf.Bytes())
+		if err != nil {
+			return fmt.Errorf("file written concurrently is not valid: %v", err)
+		}
+		i := 0
+		for _, b := range blocks {
+			for _, d := range b {
+				if i >= len(f.abs) {
+					return fmt.Errorf("more records than encoded")
+				}
+				if err := spec.Match(f.abs[i], spec.AbsOfDatum(schema, d), fmt.Sprintf("record[%d]", i)); err != nil {
+					return err
+				}
+				i++
+			}
+		}
+		if i != len(f.abs) {
+			return fmt.Errorf("%d records encoded, %d in file", len(f.abs), i)
+		}
 	case "time":
 		ti := op.Arg % len(f.timeStrs)
 		got, err, _, _, e := decodeTime([]byte(f.timeStrs[ti]))
@@ -362,7 +399,7 @@ func c12Run(g int, op c12Op, banks chan *avro.ResourceBank) error {
 func drawC12(t *rapid.T) c12Case {
 	var c c12Case
 	n := gen.UniformRange(t, "goroutines", 2, 8)
-	kinds := []string{"schema", "codec", "register", "decode", "encode", "readfile", "closebanks", "time", "decode", "encode", "time", "readfile"}
+	kinds := []string{"schema", "codec", "register", "decode", "encode", "readfile", "closebanks", "time", "decode", "encode", "time", "readfile", "encodefile"}
 	for g := 0; g < n; g++ {
 		var p []c12Op
 		m := gen.UniformRange(t, "nops", 5, 40)
